@@ -131,6 +131,15 @@ fn valid_bytes<E: Pairing>(k: &N, which: u8) -> Vec<u8> {
 
 /// verdict of one engine on a byte string: re-serialised point, or "Err"
 fn parse<E: Pairing>(bytes: &[u8], which: u8) -> Result<Vec<u8>, String> {
+    if which >= 4 {
+        // the unchecked modes skip the subgroup / curve checks but must still reject non-canonical coordinates
+        return match which % 4 {
+            0 => E::G1Affine::deserialize_compressed_unchecked(bytes).map(|p| ser(&p, false)).map_err(|_| "Err".to_string()),
+            1 => E::G1Affine::deserialize_uncompressed_unchecked(bytes).map(|p| ser(&p, false)).map_err(|_| "Err".to_string()),
+            2 => E::G2Affine::deserialize_compressed_unchecked(bytes).map(|p| ser(&p, false)).map_err(|_| "Err".to_string()),
+            _ => E::G2Affine::deserialize_uncompressed_unchecked(bytes).map(|p| ser(&p, false)).map_err(|_| "Err".to_string()),
+        };
+    }
     match which % 4 {
         0 => E::G1Affine::deserialize_compressed(bytes).map(|p| ser(&p, false)).map_err(|_| "Err".to_string()),
         1 => E::G1Affine::deserialize_uncompressed(bytes).map(|p| ser(&p, false)).map_err(|_| "Err".to_string()),
@@ -291,6 +300,11 @@ impl Property for C16 {
                 }
                 ctx.sub_eval();
                 let (po, pt) = (parse::<Ours>(&from_theirs, *which), parse::<Theirs>(&from_ours, *which));
+                // the same bytes through the unchecked modes
+                let (uo, ut) = (parse::<Ours>(&from_theirs, *which % 4 + 4), parse::<Theirs>(&from_ours, *which % 4 + 4));
+                if uo != ut {
+                    ctx.report(format!("C16|exchange-unchecked:{name}"), format!("{name} bytes {} ({fam}) in unchecked mode: decaf377::Bls12_377 says {:?}, reference says {:?}", hex::encode(&from_ours), uo.clone().map(hex::encode), ut.clone().map(hex::encode)))?;
+                }
                 ctx.class(if pt.is_ok() { "exchange:accepted" } else { "exchange:rejected" });
                 if po != pt {
                     ctx.report(format!("C16|exchange:{name}"), format!("{name} bytes {} ({fam}): decaf377::Bls12_377 says {:?}, reference says {:?}", hex::encode(&from_ours), po.clone().map(hex::encode), pt.clone().map(hex::encode)))?;
